@@ -9,7 +9,7 @@ use temporal_rs::options::{Disambiguation, DisplayCalendar, DisplayOffset, Displ
 use temporal_rs::tzdb::FsTzdbProvider;
 use temporal_rs::{Calendar, Duration, Instant, PlainDateTime, TimeZone, ZonedDateTime};
 
-pub const ACTIONS: [&str; 13] = [
+pub const ACTIONS: [&str; 15] = [
     "ok: New_York getter",
     "ok: London add",
     "ok: Tokyo Instant::to_ixdtf_string",
@@ -23,7 +23,14 @@ pub const ACTIONS: [&str; 13] = [
     "ok: London getter from a spawned thread",
     "PANIC while holding the provider lock while another thread is blocked on it (the waiter's call is judged)",
     "a zone named in another letter case (america/new_york getter): the answer must not depend on what is cached",
+    "a zone whose data file may not be installed yet (error while it is absent, ok afterwards)",
+    "install that zone's data file, then call on it: an earlier failure must not stick",
 ];
+
+/// The zone whose data appears during a history: an absolute path under the temp dir, private to this process.
+fn late_zone_path() -> std::path::PathBuf {
+    std::env::temp_dir().join(format!("tmc-c20-{}", std::process::id())).join("Late_Zone")
+}
 
 fn zdt(ns: i128, zone: &str) -> ZonedDateTime {
     ZonedDateTime::try_new(ns, Calendar::default(), crate::imp::zone_of(zone).expect("zone")).unwrap()
@@ -117,6 +124,15 @@ fn act(a: usize, shared: bool) -> String {
             let z = |_: ()| ZonedDateTime::try_new(t, Calendar::default(), TimeZone::IanaIdentifier("america/new_york".into())).unwrap();
             pick!(z(()).hour(), z(()).hour_with_provider(&p))
         }
+        13 | 14 => {
+            let path = late_zone_path();
+            if a == 14 && shared && !path.exists() {
+                let _ = std::fs::create_dir_all(path.parent().unwrap());
+                let _ = std::fs::copy("/usr/share/zoneinfo/Asia/Kathmandu", &path);
+            }
+            let z = |_: ()| ZonedDateTime::try_new(t, Calendar::default(), TimeZone::IanaIdentifier(path.to_string_lossy().to_string())).unwrap();
+            pick!(z(()).minute().map_err(|e| temporal_rs::TemporalError::range().with_message(format!("{:?}", e.kind()))), z(()).minute_with_provider(&p).map_err(|e| temporal_rs::TemporalError::range().with_message(format!("{:?}", e.kind()))))
+        }
         _ => unreachable!(),
     }
 }
@@ -130,6 +146,7 @@ pub fn worker(history: &str) {
         let want = act(a, false);
         out.push(json!({"action": a, "same": got == want, "got": got, "want": want}));
     }
+    let _ = std::fs::remove_dir_all(late_zone_path().parent().unwrap());
     println!("{}", Value::Array(out));
 }
 
@@ -189,7 +206,7 @@ impl Space for Histories {
             out.lockstep("call returns what it returns alone", &Ok(s["want"].as_str().unwrap_or("").to_string()), &Oc::Ok(s["got"].as_str().unwrap_or("").to_string()), |a, b| a == b && same, || attrs(k));
             state.0 |= h[k] == 8 || h[k] == 9 || h[k] == 11;
             state.1.push(h[k]);
-            out.state(&(state.0, { let mut z: Vec<usize> = state.1.iter().filter(|a| **a < 5 || **a >= 10).map(|a| [0, 1, 2, 0, 3, 9, 9, 9, 9, 9, 1, 1, 9][*a]).collect(); z.sort(); z.dedup(); z }));
+            out.state(&(state.0, { let mut z: Vec<usize> = state.1.iter().filter(|a| **a < 5 || **a >= 10).map(|a| [0, 1, 2, 0, 3, 9, 9, 9, 9, 9, 1, 1, 9, 4, 4][*a]).collect(); z.sort(); z.dedup(); z }));
         }
         if out.want_sample() && has_fault && h.len() >= 2 && h[0] == 8 {
             out.sample(json!({"history": h.iter().map(|a| ACTIONS[*a]).collect::<Vec<_>>()}));
